@@ -512,6 +512,20 @@ def r3_check_then_commit(rep, src, A):
                     out = x.exc
                 after = dict(heap.objs[me.name])
                 what = 'Version(%r).%s = %r' % (full, attr, val)
+                # string level: the version recomposed from the assigned value and the other two components as they were (a component
+                # that is None is left out together with its separator; any other value, the empty text included, is written)
+                parts = {'epoch': ep, 'upstream_version': up, 'debian_revision': rev}
+                parts[private[len('_BaseVersion__'):]] = None if val is None else str(val)
+                expected = None if parts['upstream_version'] is None else (
+                    ('%s:' % parts['epoch'] if parts['epoch'] is not None else '') + parts['upstream_version']
+                    + ('-%s' % parts['debian_revision'] if parts['debian_revision'] is not None else ''))
+                fv_ = after.get('_BaseVersion__full_version')
+                if expected is not None and ref.accepts(expected):
+                    if out != 'ok' or fv_ != expected:
+                        bad2 = bad2 or '%s must give the version %r; it %s' % (what, expected, 'raises %s' % out if out != 'ok' else 'gives %r' % (fv_,))
+                elif out == 'ok':
+                    bad2 = bad2 or '%s recomposes to %r, which is not a valid version, but the assignment is accepted and gives %r (epoch %r, upstream %r, revision %r)' % (
+                        what, expected, fv_, after.get('_BaseVersion__epoch'), after.get('_BaseVersion__upstream_version'), after.get('_BaseVersion__debian_revision'))
                 if out == 'ok':
                     fv = after.get('_BaseVersion__full_version')
                     e2, u2, r2 = after.get('_BaseVersion__epoch'), after.get('_BaseVersion__upstream_version'), after.get('_BaseVersion__debian_revision')
